@@ -6,6 +6,7 @@ import numpy as np
 from .. import env, t4read, oracle
 from ..deck import Deck
 from ..runner import Scn, verdict, sha, Vacuous
+from . import c06
 
 ID = 'C12'
 DECORATE = True
@@ -67,7 +68,9 @@ SOURCES = ['imp:n=%(n)s', 'none', 'imp:n,p=%(n)s', 'imp:n=%(n)s imp:p=%(p)s', 'i
            'IMP:N %(n)s', 'imp:n=%(n)s $ imp:n=7',
            # the cell is a copy of the previous one moved by one slab width; only the listed particle types change
            'like:imp:n=%(n)s', 'like:imp:n,p=%(n)s', 'like:imp:n=%(n)s imp:p=%(p)s', 'like:imp:p,n=%(n)s',
-           'like:']
+           'like:',
+           # a copy of a cell whose importances are on the data cards: it takes the entries at its own position
+           'like-card']
 
 
 OTHER_KW = ['', 'vol=1', 'unc:n=1', 'nonu=1', 'tmp=2.53e-8', 'pwt=1', 'ext:n=0 fcl:n=0 elpt:n=0.1',
@@ -95,7 +98,7 @@ def build_n(ncells):
         src = [ch.choose('src%d' % i, SOURCES) for i in range(ncells)]
         nvals = [ch.choose('n%d' % i, VALS) if src[i] != 'like:' else 0 for i in range(ncells)]
         # the photon value is a choice point only where it can matter
-        pvals = [ch.choose('p%d' % i, PVALS) if ('%(p)' in src[i] or src[i] == 'none') else 0
+        pvals = [ch.choose('p%d' % i, PVALS) if ('%(p)' in src[i] or src[i] in ('none', 'like-card')) else 0
                  for i in range(ncells)]
         st.expected = {}
         any_none = False
@@ -110,8 +113,16 @@ def build_n(ncells):
                 d = {'n': nvals[i]}
                 if use_p_card:
                     d['p'] = pvals[i]
+            elif s == 'like-card':
+                if i == 0 or src[i - 1] != 'none':
+                    ch.reject('the copied cell must have its importances on the data cards too')
+                any_none = True
+                card = '%d like %d but trcl=(2 0 0)' % (num, NUMS[i - 1])
+                d = {'n': nvals[i]}
+                if use_p_card:
+                    d['p'] = pvals[i]
             elif s.startswith('like:'):
-                if i == 0 or src[i - 1] == 'none' or src[i - 1].startswith('like:'):
+                if i == 0 or src[i - 1] in ('none', 'like-card') or src[i - 1].startswith('like:'):
                     ch.reject('LIKE needs a preceding cell with cell-card importances')
                 but = s[5:] % dict(n=fmtnum(nvals[i]), p=fmtnum(pvals[i]))
                 card = '%d like %d but trcl=(2 0 0) %s' % (num, NUMS[i - 1], but)
@@ -136,8 +147,8 @@ def build_n(ncells):
         if upos is not None:
             # optionally one of the level-0 cells is FILLed with that universe (its pieces get generated numbers)
             fidx = ch.choose('filled-cell', [None, 0, 1, 2])
-            if fidx is not None and not src[fidx].startswith('like:') and not (
-                    fidx + 1 < ncells and src[fidx + 1].startswith('like:')):
+            if fidx is not None and not src[fidx].startswith('like') and not (
+                    fidx + 1 < ncells and src[fidx + 1].startswith('like')):
                 head = '%d 0 %d -%d' % (NUMS[fidx], fidx + 1, fidx + 2)
                 assert st.cells[fidx].startswith(head)
                 st.cells[fidx] = head + ' fill=9' + st.cells[fidx][len(head):]     # before any $ comment
@@ -191,7 +202,12 @@ def b_interp(ch):
 def scenarios(tier):
     q = tier == 'quick'
     return [Scn('interp-lengths', b_interp, None, None, 'IMP data cards with nI interpolation down to 0, every length 3 ... 170'),
-            Scn('many-cells', b_many, None, None, 'decks of 12 / 40 / 130 cells, IMP cards with long repeats')] + [Scn('cells3', build_n(3), 4 if q else None, None, '3 cells'),
+            Scn('many-cells', b_many, None, None, 'decks of 12 / 40 / 130 cells, IMP cards with long repeats')] + [Scn('cells3', build_n(3), 3 if q else None, None, '3 cells'),
+            Scn('datacards3', (lambda ch: build_n(3)(c06.Preset(ch, {'src0': 1, 'src1': 1, 'src2': 1, 'imp:p-card': 1}))),
+                3 if q else 5, 5, '3 cells whose importances all come from an IMP:N and an IMP:P data card'),
+            Scn('datacards4', (lambda ch: build_n(4)(c06.Preset(ch, {'src0': 1, 'src1': 1, 'src2': 1, 'src3': 1,
+                                                                         'imp:p-card': 1}))),
+                2 if q else 4, 4, '4 cells whose importances all come from an IMP:N and an IMP:P data card'),
             Scn('cells4', build_n(4), 3 if q else 4, 4, '4 cells'),
             Scn('cells5', build_n(5), 3 if q else 4, 4, '5 cells')]
 
